@@ -28,9 +28,10 @@ Section Main.
   Variable init_state : res St.
   Variable terminate : nat -> nat -> option string.
   Variable ok : nat -> bool.
+  Hypothesis Hwf : wf_graph g.
   Hypothesis Hfr : forall e st prev, frontier e st prev = Ok (ok e).
   Hypothesis Htr : forall d e prev st, exists r, traverse d e prev st = Ok r.
-  Hypothesis Hest : forall a b st, exists c, estimate a b st = Ok c.
+  Hypothesis Hest : forall a b st, a < nverts g -> b < nverts g -> exists c, estimate a b st = Ok c.
   Hypothesis Hinit : exists i0, init_state = Ok i0.
 
   Variable d : dir.
@@ -59,6 +60,7 @@ Section Main.
 
   (* ---- run_a_star_state: the final search state ---- *)
   Lemma a_star_state_spec fuel target : (forall t, target = Some t -> t <> source) ->
+    (forall t, target = Some t -> t < nverts g) ->
     match run_a_star_state fuel d source target with
     | Ok s' => outcome_ok g ok d source target s'
     | Err c => (c = "nopath"%string /\ exists t, target = Some t /\ ~ reachable ok d g source t)
@@ -67,11 +69,11 @@ Section Main.
     | OutOfFuel => True
     end.
   Proof.
-    intros Hts. unfold Search.run_a_star_state. rewrite src_ltb. destruct Hinit as [i0 Hi]. rewrite Hi. simpl.
+    intros Hts Htin. unfold Search.run_a_star_state. rewrite src_ltb. destruct Hinit as [i0 Hi]. rewrite Hi. simpl.
     assert (exists h0, match target with None => Ok czero | Some t => estimate source t i0 end = Ok h0) as [h0 Hh].
-    { destruct target; [apply Hest|eauto]. }
+    { destruct target as [t|] eqn:Htg; [apply Hest; [exact Hsrc|apply Htin; reflexivity]|eauto]. }
     rewrite Hh. simpl.
-    pose proof (run_loop_spec clt cadd czero cfloor g frontier traverse estimate terminate ok Hfr Htr Hest d source target
+    pose proof (run_loop_spec clt cadd czero cfloor g frontier traverse estimate terminate ok Hwf Hfr Htr Hest d source target Htin
                   fuel i0 _ (init_inv czero g ok d source target h0 Hts)) as H.
     cbv beta in H. destruct (run_loop fuel d source target i0 _) as [s'|c|w|]; auto.
     destruct H as [(->&t&s'&Ht&HI&Hq)|H]; [left|right; exact H].
@@ -91,7 +93,7 @@ Section Main.
     - repeat (match goal with |- context [bind ?X _] => destruct X end; simpl; auto).
   Qed.
 
-  Theorem a_star_target_spec fuel t : t <> source ->
+  Theorem a_star_target_spec fuel t : t <> source -> t < nverts g ->
     match run_a_star fuel d source (Some t) with
     | Ok (tree, it) => reachable ok d g source t /\ is_Some (tree !! t) /\ tree_facts tree
     | Err c => (c = "nopath"%string /\ ~ reachable ok d g source t)
@@ -100,8 +102,8 @@ Section Main.
     | OutOfFuel => True
     end.
   Proof.
-    intros Hne. assert (Hts : forall t0, Some t = Some t0 -> t0 <> source) by (intros ? [= <-]; exact Hne).
-    rewrite (a_star_of_state fuel _ Hts). pose proof (a_star_state_spec fuel _ Hts) as H.
+    intros Hne Hlt. assert (Hts : forall t0, Some t = Some t0 -> t0 <> source) by (intros ? [= <-]; exact Hne).
+    rewrite (a_star_of_state fuel _ Hts). pose proof (a_star_state_spec fuel _ Hts (tgt_some g t Hlt)) as H.
     destruct (run_a_star_state fuel d source (Some t)) as [s'|c|w|]; auto.
     - destruct H as [Hn|t' Ht HJ Hl]; [discriminate|]. inversion Ht; subst t'.
       split; [apply (j_lab_reach _ _ _ _ _ HJ), Hl|]. split; [|apply J_tree_facts, HJ].
@@ -118,7 +120,7 @@ Section Main.
     end.
   Proof.
     assert (Hts : forall t0, @None nat = Some t0 -> t0 <> source) by discriminate.
-    rewrite (a_star_of_state fuel _ Hts). pose proof (a_star_state_spec fuel _ Hts) as H.
+    rewrite (a_star_of_state fuel _ Hts). pose proof (a_star_state_spec fuel _ Hts (tgt_none g)) as H.
     destruct (run_a_star_state fuel d source None) as [s'|c|w|]; auto.
     - destruct H as [_ Hq HI|t' Ht _ _]; [|discriminate]. split; [apply J_tree_facts, (i_J _ _ _ _ _ _ HI)|].
       intros v Hr. apply (j_lab_tree _ _ _ _ _ (i_J _ _ _ _ _ _ HI)).
@@ -153,7 +155,7 @@ Section Main.
   Qed.
 
   (* ---- run_vertex_oriented ---- *)
-  Theorem vertex_target_spec fuel t : t <> source ->
+  Theorem vertex_target_spec fuel t : t <> source -> t < nverts g ->
     match run_vertex_oriented fuel d source (Some t) with
     | Ok r => reachable ok d g source t
               /\ exists tree route, r_trees r = [tree] /\ r_routes r = [route] /\ route <> []
@@ -165,7 +167,7 @@ Section Main.
     | OutOfFuel => True
     end.
   Proof.
-    intros Hne. unfold Search.run_vertex_oriented. pose proof (a_star_target_spec fuel t Hne) as H.
+    intros Hne Hlt. unfold Search.run_vertex_oriented. pose proof (a_star_target_spec fuel t Hne Hlt) as H.
     destruct (run_a_star fuel d source (Some t)) as [[tree it]|c|w|]; simpl; auto.
     2:{ destruct H as [H|H]; auto. }
     destruct H as (Hr&Hin&Htf). unfold vertex_oriented_route.
@@ -191,34 +193,34 @@ Section Main.
   Qed.
 
   (* ---- the statements of the property ---- *)
-  Corollary vertex_nopath_unreachable fuel t :
+  Corollary vertex_nopath_unreachable fuel t : t < nverts g ->
     run_vertex_oriented fuel d source (Some t) = Err "nopath"%string -> ~ reachable ok d g source t.
   Proof.
-    intros H. destruct (Nat.eq_dec t source) as [->|Hne].
+    intros Hlt H. destruct (Nat.eq_dec t source) as [->|Hne].
     - unfold Search.run_vertex_oriented, Search.run_a_star in H. rewrite src_ltb, Nat.eqb_refl in H. simpl in H.
       unfold vertex_oriented_route in H. simpl in H. rewrite Nat.eqb_refl in H. discriminate.
-    - pose proof (vertex_target_spec fuel t Hne) as Hs. rewrite H in Hs.
+    - pose proof (vertex_target_spec fuel t Hne Hlt) as Hs. rewrite H in Hs.
       destruct Hs as [[_ Hu]|[(why&a&b&_&Hw)|[Hw|Hw]]]; [exact Hu| |discriminate|discriminate].
       exfalso. eapply term_not_nopath. symmetry. exact Hw.
   Qed.
 
-  Corollary vertex_ok_route fuel t r : t <> source ->
+  Corollary vertex_ok_route fuel t r : t <> source -> t < nverts g ->
     run_vertex_oriented fuel d source (Some t) = Ok r ->
     reachable ok d g source t
     /\ exists tree route, r_trees r = [tree] /\ r_routes r = [route] /\ route <> []
                           /\ pwalk ok d g source (map et_edge route) t.
   Proof.
-    intros Hne H. pose proof (vertex_target_spec fuel t Hne) as Hs. rewrite H in Hs.
+    intros Hne Hlt H. pose proof (vertex_target_spec fuel t Hne Hlt) as Hs. rewrite H in Hs.
     destruct Hs as (Hr&tree&route&A&B&Cc&D&_). split; [exact Hr|]. exists tree, route. auto.
   Qed.
 
-  Corollary unreachable_never_ok fuel t : t <> source -> ~ reachable ok d g source t ->
+  Corollary unreachable_never_ok fuel t : t <> source -> t < nverts g -> ~ reachable ok d g source t ->
     (forall a b, terminate a b = None) ->
     run_vertex_oriented fuel d source (Some t) = Err "nopath"%string
     \/ run_vertex_oriented fuel d source (Some t) = OutOfFuel.
   Proof.
-    intros Hne Hu Hterm. unfold Search.run_vertex_oriented.
-    pose proof (a_star_target_spec fuel t Hne) as H.
+    intros Hne Hlt Hu Hterm. unfold Search.run_vertex_oriented.
+    pose proof (a_star_target_spec fuel t Hne Hlt) as H.
     destruct (run_a_star fuel d source (Some t)) as [[tree it]|c|w|] eqn:Hrun; simpl; auto.
     - destruct H as (Hr&_). contradiction.
     - destruct H as [(->&_)|(why&a&b&Hw&->)]; [auto|]. rewrite Hterm in Hw. discriminate.
